@@ -364,4 +364,20 @@ def effect (c : Cfg) (m : AMsg) : Option Effect :=
   | .withdrawAll l => some (processMessage true l d.wd d.nlri)
   | .reset _ _ => none
 
+/-! ### the receive loop over a whole session -/
+
+def Action.isReset : Action → Bool
+  | .reset _ _ => true
+  | _ => false
+
+/-- `for ctx.Err() == nil { recvMessageWithError …; UPDATE branch … }` of recvMessageloop: UPDATEs are
+    handled one after the other until one resets the session (`return`).  The loop carries NO state
+    from one UPDATE to the next: every iteration sees only its own message and the session's
+    negotiated parameters `c`. -/
+def sessionRun (c : Cfg) : List AMsg → List Action
+  | [] => []
+  | m :: rest =>
+    let a := sessionAction c m
+    if a.isReset then [a] else a :: sessionRun c rest
+
 end ErrH
